@@ -73,8 +73,10 @@ func (r *Registry) PushBlobChunkedResume(ctx context.Context, repoName, id strin
 		}, id)
 		repo.uploads[b.ID()] = b
 	}
-	b.setCheckStartOffset(offset)
-	return b, nil
+	return &resumedWriter{
+		Buffer:           b,
+		checkStartOffset: offset,
+	}, nil
 }
 
 func (r *Registry) MountBlob(ctx context.Context, fromRepo, toRepo string, dig ociregistry.Digest) (ociregistry.Descriptor, error) {
